@@ -601,8 +601,27 @@ def run_impl(case, keep_dir: bool = False) -> dict:
                 res.setdefault('exc', []).append(f'{type(e).__name__}: {e}'[:200])
             safe_close(ts)
         else:
-            ts = TrajectoryStore.create(base_file=base_p, associated_files=assoc_create or None)
+            # a cache that holds about two of these trajectories: in the writing session most reads below come from the file
+            # handles that created the file, not from the cache (the property speaks of reading back, not only after reopening)
+            try:
+                big = max([int(t.nbytes) for t in trajs] + [1])
+            except Exception:  # noqa: BLE001
+                big = None
+            kw = {} if big is None else {'cache_size_mb': (big + 512) / (1024 * 1024)}
+            ts = TrajectoryStore.create(base_file=base_p, associated_files=assoc_create or None, **kw)
             add_all(ts, trajs[:k])
+            if res['outcome'] and all(o == 'ok' for o in res['outcome']):
+                res['back_live'] = []
+                order_live = ['base'] + [reg[g][0] for g in create_tags]
+                for i in range(len(res['outcome'])):
+                    try:
+                        r = ts[i]
+                        res['back_live'].append({'ok': canon_traj(r, order_live), 'len': len(r)})
+                    except Exception as e:  # noqa: BLE001
+                        if isinstance(e, ValueError) and 'too large' in str(e):
+                            res['back_live'].append({'skip': 'larger than the cache once loaded'})   # our cache sizing, not the store
+                        else:
+                            res['back_live'].append({'err': exc_kind(e), 'msg': f'{type(e).__name__}: {e}'[:200]})
             safe_close(ts)
             if k < len(trajs) and all(o == 'ok' for o in res['outcome']):
                 ts = TrajectoryStore.append(base_file=base_p, associated_files=[p for p, _ in assoc_create] or None)
@@ -888,6 +907,32 @@ def evaluate(ctx, case, res, m_asis, m_int, files, report=True) -> dict:
                     ctx.count('agrees with the intended variant (open finding repaired?)')
                 else:
                     div('decode∘encode', f"traj {ti} {n}.{fld['name']} ({fld['shape']},{fld['dtype']}): model {_short(mv)} impl {_short(bv)} added {_short(av)}")
+        # --- the same trajectory read in the session that wrote it (mostly from the file, the cache being small): what the file
+        # holds does not depend on which session reads it
+        bl = (res.get('back_live') or [])
+        if ti < len(bl):
+            live = bl[ti]
+            ctx.count('read in the writing session' if 'skip' not in live else 'read in the writing session skipped (cache sizing)')
+            if 'skip' in live:
+                pass
+            elif 'err' in live:
+                (fail if int_fits else div)('reads back' if int_fits else 'read outcome',
+                                            f"traj {ti}: read in the writing session fails ({live['msg']}) but reads after reopening")
+            else:
+                for n in added:
+                    if n not in b['ok'] or n not in live['ok']:
+                        continue
+                    for fld, av, bv, lv in zip(fs_layout(n), added[n], b['ok'][n], live['ok'][n]):
+                        if lv == bv or lv == av:
+                            continue
+                        msg = (f"traj {ti} {n}.{fld['name']} ({fld['shape']},{fld['dtype']}): added {_short(av)}, read in the writing "
+                               f"session {_short(lv)}, read after reopening {_short(bv)}")
+                        if bool(int_fit_file.get(n)):
+                            fail('field equal', msg, traj=ti, field=fld['name'])
+                        else:
+                            div('decode∘encode (writing session)', msg)
+                if int_fits and live['len'] != b['len']:
+                    fail('point count', f"traj {ti}: {live['len']} points read in the writing session, {b['len']} after reopening", traj=ti)
         # --- point count
         if int_fits and b['len'] != case['trajs'][ti]['npoints']:
             fail('point count', f"traj {ti}: {case['trajs'][ti]['npoints']} points added, {b['len']} read", traj=ti)
